@@ -3,5 +3,5 @@
 set -e
 cd "$(dirname "${BASH_SOURCE[0]}")"
 export CARGO_NET_OFFLINE=true
-for v in release chk nopf sched; do ./check build "$v"; done
+for v in release chk nopf sched miri; do ./check build "$v"; done
 echo "setup ok"
